@@ -1079,6 +1079,19 @@ def run(prog, tier):
                         and U(st_.value.value) == "D" and isinstance(st_.value.slice, ast.Constant):
                     aliases[st_.targets[0].id] = st_.value.slice.value
             bad, n_rt = [], 0
+            # `chain.X = list(A)` with A the archive entry (or a local holding it): iterating an array walks axis 0 - the rows as stacked
+            for st_ in ast.walk(lfn):
+                if isinstance(st_, ast.Assign) and isinstance(st_.targets[0], ast.Attribute) and U(st_.targets[0].value) == var \
+                        and isinstance(st_.value, ast.Call) and isinstance(st_.value.func, ast.Name) and st_.value.func.id == "list" and len(st_.value.args) == 1:
+                    a0 = st_.value.args[0]
+                    key = a0.slice.value if isinstance(a0, ast.Subscript) and U(a0.value) == "D" and isinstance(a0.slice, ast.Constant) else \
+                        aliases.get(a0.id) if isinstance(a0, ast.Name) else None
+                    if key is not None and key in values_:
+                        saved = values_[key]
+                        if ((isinstance(saved, ast.Call) and U(saved.func) == "array") and any(
+                                isinstance(x_, ast.Attribute) and U(x_) == f"self.{st_.targets[0].attr}" for x_ in ast.walk(saved))) \
+                                or U(saved) == f"self.{st_.targets[0].attr}":
+                            n_rt += 1
             for st_ in ast.walk(lfn):
                 if not (isinstance(st_, ast.Assign) and isinstance(st_.value, ast.ListComp)
                         and isinstance(st_.targets[0], ast.Attribute) and U(st_.targets[0].value) == var):
